@@ -194,11 +194,21 @@ func c07Faults() []fault {
 				return ""
 			}
 			// a string that satisfies the patterns but not the length: repeat a member character
-			for _, cand := range []string{"aaaaaaa", "aaaaaaaaaaaaaaaaaaaaaa", ""} {
+			// lengths count characters, not bytes: multi-byte candidates whose byte length may well be
+			// inside a range while their character count is not
+			cands := []string{"aaaaaaa", "aaaaaaaaaaaaaaaaaaaaaa", ""}
+			for k := 1; k <= 8; k++ {
+				cands = append(cands, strings.Repeat("é", k), strings.Repeat("日", k))
+			}
+			rng.Shuffle(len(cands), func(i, j int) { cands[i], cands[j] = cands[j], cands[i] })
+			for _, cand := range cands {
 				lenOK := lib.StringInType(&yang.YangType{Kind: yang.Ystring, Length: s.f.YType.Length}, cand)
 				patOK := lib.StringInType(&yang.YangType{Kind: yang.Ystring, Pattern: s.f.YType.Pattern}, cand)
 				if !lenOK && patOK {
 					s.v.Elem().SetString(cand)
+					if len(cand) != len([]rune(cand)) {
+						return "length:string:multi-byte"
+					}
 					return "length:string"
 				}
 			}
@@ -633,6 +643,7 @@ func runC07(r *lib.Run) {
 				fo := cfg.Observe(ft2)
 				r.Case(cfg.Name+class+caseKey(cfg, fo), true)
 				r.Hit("fault:" + ft.name)
+				r.Hit("fault-class:" + class)
 				var ferr error
 				wf := func() map[string]interface{} {
 					return wit(cfg, r.Seed, i, map[string]interface{}{"fault": class, "tree": fo.Dump()})
@@ -648,5 +659,5 @@ func runC07(r *lib.Run) {
 			}
 		}
 	}
-	r.RequireCov("valid-accepted", "fault:range:int", "fault:length:string", "fault:pattern:string", "fault:enum-undefined:leaf", "fault:key-mismatch", "fault:key-unset", "fault:leaf-list-duplicate", "fault:list-max", "fault:choice-two-cases", "fault:union-no-member")
+	r.RequireCov("valid-accepted", "fault:range:int", "fault:length:string", "fault-class:length:string:multi-byte", "fault:pattern:string", "fault:enum-undefined:leaf", "fault:key-mismatch", "fault:key-unset", "fault:leaf-list-duplicate", "fault:list-max", "fault:choice-two-cases", "fault:union-no-member")
 }
